@@ -14,7 +14,7 @@ CLAIMED = {
          "deterministic simulation with fault injection (storage corruption / torn writes vs. independent feasibility oracle)"),
  "C06": ("4.2", "seeded search over move histories: the real EA/FEA loops run against a simulated Process (a full moptipy Process subclass) that scripts the random stream through the numpy Generator interface (index pairs biased to i=0, j=n-2, i=j, full reversal, adjacent, repeated), the start tour, a possibly already known best solution and the cancellation instant; one algorithm object serves several runs; plus runs under moptipy's real process - plain and through its for_fes/from_starting_point sub-process wrappers, short and longer than 16 384 moves - observed through a proxy; every hand-over is re-computed with exact integers, EA monotonicity is checked, and the FEA table comes from a simulator-owned guard-banded allocator so that any address outside [0, upper bound] is seen. A clean batch is evidence, not proof.",
          "trusted: exact integer tour-length oracle, numba/numpy/moptipy; guard band catches out-of-range addresses up to 4x the largest distance + 1024",
-         "deterministic simulation with fault injection (scripted process: random stream, cancellation, allocator seam; reference model)"),
+         "deterministic simulation with fault injection (scripted process: random stream, cancellation, allocator seam, baton-passed caller threads on a seeded schedule; reference model)"),
  "C10": ("4.3", "seeded search over fault plans: run_ode/multi_run_ode integrate linear plants (stable to exponentially diverging) under controllers and plants that return NaN, +-inf, 1e50, -1e11 or exactly +-1e10 always / after t* / in windows narrower or wider than the output grid / at t=0 only / when a state leaves a box, plus bundled Stuart-Landau and Lorenz systems; every returned array is checked for the row invariants, control = controller(state,t) bit-equality, J/T/differentials against independent formulas (also on non-uniform sub-grids), the analytic solution for fault-free linear loops, and bounded liveness as a call budget. A clean batch is evidence, not proof.",
          "trusted: scipy RK45, math.fsum reference formulas, own matrix exponential; call budget calibrated x50 on the unchanged tree; stiff-but-legal closed loops are excluded from generation and never counted as non-termination",
          "deterministic simulation with fault injection (failing peers as pure functions of simulated time/state; bounded liveness; invariants over the recorded trajectory)"),
@@ -38,9 +38,21 @@ except FileNotFoundError:
     pass
 CLAIMED.update(EXTRA)
 NA = json.load(open(os.path.join(V, "tools", "not_applicable.json")))
+ADDED = {
+ "C01": " The constructor is also offered items that fit in no orientation: what it accepts is decoded and judged. Violations found with scribbled *private* scratch arrays count only if the history without those scribbles still shows them.",
+ "C02": " Violations found with scribbled private scratch arrays count only if the history without those scribbles still shows them.",
+ "C14": " Violations found with scribbled private scratch arrays count only if the history without those scribbles still shows them.",
+ "C04": " For well-formed stored integer lists the returned matrix must equal the stored numbers, sign included.",
+ "C06": " The runs of a scenario may be simultaneous solve() calls on one algorithm object: real threads released one at a time at should_terminate() polls by a schedule in the scenario document. Caller-side faults: the matrix buffer handed to the Instance constructor is re-used afterwards; arrays numpy derives from an instance are offered to the algorithms (refusal is fine).",
+ "C10": " Starting states also arrive as int64/float32 arrays; System objects are built and System.describe_system must write, per starting state, exactly the simulations judged before (results table on disk).",
+ "C11": " Histories also contain read-only API calls (log_parameters_to, str, bounds); inside surrogate runs every evaluation is observed together with the objective's mode (an evaluation booked by the real process must be a real-system evaluation, and the recorded data must be what those evaluations record on a fresh objective). The private collection lists are used only while calibrated against get_differentials().",
+ "C12": " Instance pools are stratified by structure class; controller-synthesis results are re-evaluated from run_ode rows alone; parsed bin bounds must be true bounds.",
+ "C17": " Templates in which every item needs its own bin are admitted or refused by the code's own get_x_dim; objective objects with another configuration are used in turns.",
+}
 checks = []
 for pid in sorted(CLAIMED):
     ref, text, note, tech = CLAIMED[pid]
+    text = text + ADDED.get(pid, "")
     checks.append({
         "property_id": pid,
         "quick_cmd": f"/verif/check {pid} quick",
